@@ -1044,12 +1044,19 @@ std::string sqf::parser::preprocessor::impl_default::instance::parse_file(::sqf:
             {
                 if (c == '#' && was_new_line)
                 {
+                    auto line_before = fileinfo.line;
                     auto res = parse_ppinstruction(runtime, fileinfo);
                     if (m_errflag)
                     {
                         return res;
                     }
                     sstream << res;
+                    // A directive continued over several physical lines (multi-line #define) stands for
+                    // all of them: keep the line count of the output in step with the source.
+                    for (auto l = line_before + 1; l < fileinfo.line; ++l)
+                    {
+                        sstream << '\n';
+                    }
                     break;
                 }
             }
